@@ -1,4 +1,5 @@
 import OutlineModel.Proofs.TieMConn
+import OutlineModel.Proofs.TieHandle
 import OutlineModel.Props.C06
 import OutlineModel.Model.MConn
 import OutlineModel.Gen.Decisions
@@ -348,5 +349,65 @@ theorem code_copy_paths_follow_the_wire
                     (if impl c.StreamConn then rf ⟨c.StreamConn.val⟩ r else copyIn c.StreamConn r).2) ∧
         Tie.MConn.abs c' = MConn.step (Tie.MConn.abs c) (.readFrom (impl c.StreamConn) si)) :=
   ⟨Tie.MConn.writeTo_tie copyOut c w so h0 ho, Tie.MConn.readFrom_tie impl rf copyIn c r si h1 hi⟩
+
+/-- how often a call of the given name occurs in an effect log -/
+def callsNamed (n : String) (l : List GoRT.Eff) : Nat := (l.filter (fun e => e.name = n)).length
+
+/-- **code_authentication_and_probe_reports**: the translated `streamHandler.handleConnection` (service/tcp.go), for
+    every handler, context, clock, connection and behaviour of its collaborators: never panics; it calls
+    `AddAuthenticated` at most once — exactly once when the stored authenticate function succeeded, with the key id that
+    function returned, and never when it failed; it hands the connection to `absorbProbe` (the one place `AddProbe` is
+    called) exactly once when authentication failed, with the status it then returns, and never when it succeeded. -/
+theorem code_authentication_and_probe_reports
+    (ctxDeadline : GoRT.Opaque "context.Context" → Int × Bool) (dial : GoRT.Opaque "transport.FuncStreamDialer")
+    (authenticate : Tie.Handle.Conn → String × Tie.Handle.Conn × Option String)
+    (req : Tie.Handle.Conn → String × Option String)
+    (disc : GoRT.Opaque "io.Writer") (now : Int)
+    (relay : GoRT.Opaque "slog.Logger" → GoRT.Opaque "context.Context" → GoRT.Opaque "transport.FuncStreamDialer" → String → Tie.Handle.Conn → Tie.Handle.Conn → Option String)
+    (h : Gen.Code.streamHandler) (ctx : GoRT.Opaque "context.Context") (oc : Tie.Handle.Conn)
+    (cm : GoRT.Opaque "service.TCPConnMetrics") (pm : Gen.Code.ProxyMetrics) :
+    ∃ st log, Gen.Code.streamHandler.handleConnection ctxDeadline dial authenticate req disc now relay h ctx oc cm pm =
+        some (h, pm, st, log) ∧
+      (match (authenticate oc).2.2 with
+       | some e => st = some e ∧ callsNamed "TCPConnMetrics.AddAuthenticated" log = 0 ∧ callsNamed "absorbProbe" log = 1 ∧
+                    Tie.Handle.absorbEff oc cm e ∈ log
+       | none => callsNamed "TCPConnMetrics.AddAuthenticated" log = 1 ∧ callsNamed "absorbProbe" log = 0 ∧
+                    Tie.Handle.authEff cm (authenticate oc).1 ∈ log) := by
+  rw [Tie.Handle.handleConnection_tie]
+  refine ⟨_, _, rfl, ?_⟩
+  unfold Tie.Handle.outcome callsNamed Tie.Handle.armEffs
+  cases ha : (authenticate oc).2.2 with
+  | some e => cases (ctxDeadline ctx).2 <;> simp [Tie.Handle.absorbEff, Tie.Handle.callAuth]
+  | none =>
+    cases hr : (req (authenticate oc).2.1).2 with
+    | some e => cases (ctxDeadline ctx).2 <;> simp [Tie.Handle.authEff, Tie.Handle.clearEff, Tie.Handle.drainEff, Tie.Handle.callAuth, Tie.Handle.callReq]
+    | none => cases (ctxDeadline ctx).2 <;> simp [Tie.Handle.authEff, Tie.Handle.clearEff, Tie.Handle.callAuth, Tie.Handle.callReq, Tie.Handle.callRelay]
+
+/-- **code_status_names_the_outcome**: the status the translated handler returns (the one `Handle` passes to `AddClosed`)
+    is the authentication error when there is one, else ERR_READ_ADDRESS when the address cannot be read, else whatever
+    the relay (`proxyConnection`) reports — `none`, which `Handle` reports as "OK", only when the relay ran and ended well. -/
+theorem code_status_names_the_outcome
+    (ctxDeadline : GoRT.Opaque "context.Context" → Int × Bool) (dial : GoRT.Opaque "transport.FuncStreamDialer")
+    (authenticate : Tie.Handle.Conn → String × Tie.Handle.Conn × Option String)
+    (req : Tie.Handle.Conn → String × Option String)
+    (disc : GoRT.Opaque "io.Writer") (now : Int)
+    (relay : GoRT.Opaque "slog.Logger" → GoRT.Opaque "context.Context" → GoRT.Opaque "transport.FuncStreamDialer" → String → Tie.Handle.Conn → Tie.Handle.Conn → Option String)
+    (h : Gen.Code.streamHandler) (ctx : GoRT.Opaque "context.Context") (oc : Tie.Handle.Conn)
+    (cm : GoRT.Opaque "service.TCPConnMetrics") (pm : Gen.Code.ProxyMetrics) :
+    ∃ log, Gen.Code.streamHandler.handleConnection ctxDeadline dial authenticate req disc now relay h ctx oc cm pm =
+      some (h, pm,
+        (match (authenticate oc).2.2 with
+         | some e => some e
+         | none => match (req (authenticate oc).2.1).2 with
+           | some _ => some "ERR_READ_ADDRESS"
+           | none => relay h.logger ctx dial (req (authenticate oc).2.1).1 (authenticate oc).2.1 oc), log) := by
+  rw [Tie.Handle.handleConnection_tie]
+  unfold Tie.Handle.outcome
+  cases ha : (authenticate oc).2.2 with
+  | some e => exact ⟨_, rfl⟩
+  | none =>
+    cases hr : (req (authenticate oc).2.1).2 with
+    | some e => exact ⟨_, rfl⟩
+    | none => exact ⟨_, rfl⟩
 
 end OutlineModel.Props.C15
